@@ -3,8 +3,8 @@
 Explicit-state / bounded-history model checking on the real driver framework: for every
 handler configuration (0-2 Write / Change / Read handlers, plain or coroutine, vetoing or
 not, attached to one element or to two through a list) x element kind x entry path (client
-message through the router, set_value(), assignment) x every write sequence of depth <= 2
-(thorough 3) over {new value, other value, same value}, a FRESH generated driver class is
+message through the router, set_value(), assignment) x every write sequence of depth <= 3
+(thorough 4) over {new value, other value, same value}, a FRESH generated driver class is
 run on the virtual loop and the trace of handler invocations (with the element value seen
 at each) and of published messages is compared with the contract.
 """
@@ -359,7 +359,7 @@ def judge(kind, path, wcfg, ccfg, rcfg, both, seq, obs):
 
 
 def sequences(tier):
-    depth = 2 if tier == "quick" else 3
+    depth = 3 if tier == "quick" else 4
     for n in range(1, depth + 1):
         for s in itertools.product(("v1", "v2", "same"), repeat=n):
             yield s
